@@ -97,6 +97,17 @@ def restart (fs : IFs) : IFs := fun p =>
 /-- state after a crash at primitive index `n` of storage operation `op`, then restart -/
 def crashAt (fs : IFs) (op : SOp) (n : Nat) : IFs := restart (run fs ((fsops fs op).take n))
 
+/-- a crash in the MIDDLE of a primitive operation: of a `pwrite` only the first `j` bytes of the data
+    reach the file (a torn write); every other primitive operation is atomic (not done at all) -/
+def tornOp (j : Nat) : IOp → List IOp
+  | .pwrite p off d => [.pwrite p off (d.take j)]
+  | _ => []
+
+/-- state after the first `n` primitive operations of `op`, the `n`-th one torn after `j` bytes, then
+    restart -/
+def tornAt (fs : IFs) (op : SOp) (n j : Nat) : IFs :=
+  restart (run fs ((fsops fs op).take n ++ (((fsops fs op)[n]?).map (tornOp j)).getD []))
+
 /-- what a reader of a reopened container sees: (data, leases) -/
 def reopen (f : File) : Option (Bytes × List Bytes) :=
   match openLeaseOffset f with
